@@ -10,6 +10,36 @@ VERIF = Path(__file__).resolve().parent.parent
 
 # property -> (technique, level text, level note, design ref)
 CLAIMED = {
+    "C03": (
+        "edge-blocking dominance of tofu_db.verify over awaiting the response + abstract evaluation of every literal verify() outcome through both callers (writer/reader table) + SQL literal reader + def-use of fingerprint and endpoint",
+        "Static necessary conditions T1-T7: with a TOFU database configured no path from create_connection to awaiting the response avoids the success edge of verify (an unreadable certificate must raise); each literal result tuple of TOFUDatabase.verify, enumerated from its source, is pushed through get and upload: (False,*) always raises CertificateChangedError with stored and presented fingerprint and without any store mutation, first_use pins exactly the verified triple, a match proceeds; the fingerprint is sha256 over DER compared with ==, first_use only without a row; statements are keyed (hostname, port); every redirect hop goes through _get_single with the hop URL's own host/port; siblings agree.",
+        "Trusted: CPython ast, engine, hashlib/cryptography/sqlite3. SQLite semantics over histories are not decided.",
+        "DESIGN.md section 2, C03",
+    ),
+    "C11": (
+        "reachability of request writes from connection_made behind a deferral flag + abstract evaluation of the flag at construction sites + dominance of verify over the deferred send + per-outcome abstract evaluation",
+        "Static necessary conditions F1-F3: asyncio runs connection_made inside create_connection, so every transport.write of the client protocols must be unreachable from connection_made once the deferral flag's true edge is removed, the flag must come from a constructor parameter, and every construction site in the session must pass a value that is false when a TOFU database exists; the deferred send is unreachable without the success edge of verify, lies on every TOFU path to awaiting the response, and is absent from every feasible path for a failing verdict or an unreadable certificate. TLS handshake bytes (SNI) are outside the property.",
+        "Trusted: CPython ast, engine, asyncio's connection_made timing.",
+        "DESIGN.md section 2, C11",
+    ),
+    "C12": (
+        "SQL literal reader + per-method transaction shape on the CFG (single connection block, commit placement, DML/commit ordering) + call-graph rules (no nested commit, no second connection) + field def-use",
+        "Static necessary conditions D1-D6 (SQLite's transaction = everything up to commit() on one connection): each mutating method keeps its DML in one `with self._connection()` block on that connection's cursor, commits outside loops, reaches the commit on every normal path after DML and runs no DML after it; no mutating method calls another committing method or one that opens its own connection inside the write block; _connection closes without committing and is not in autocommit mode; export/import columns, keys, required fields and INSERT bindings agree and the TOML key only feeds messages; per-host statements are keyed (hostname, port). Crash behaviour of SQLite/filesystem is trusted.",
+        "Trusted: CPython ast, engine, sqlite3 transaction semantics, tomllib/tomli_w.",
+        "DESIGN.md section 2, C12",
+    ),
+    "C13": (
+        "future-resolution totality on the CFG with an exact raise-set catalogue + abstract evaluation of the status/body table + cap dominance + wait_for/close pairing + sibling comparison",
+        "Static necessary conditions E1-E6: connection_lost of both client protocols resolves the response future on every normal path and every decode/int call has handlers covering its whole raise-set (UnicodeDecodeError, LookupError for a non-literal codec; ValueError) that resolve the future; _parse_header reports an error exactly outside 10..69 and the response carries a body exactly for 20..29, equal to the buffered bytes (decoded for text); every exit of data_received closed the transport or passed the finite size-cap comparison whose true edge reports and closes; connection and response are awaited only inside wait_for(timeout=self.timeout) and the transport is closed on every exit; the two protocols agree; the chunk only extends the buffer. Promptness of EOF delivery is trusted.",
+        "Trusted: CPython ast, engine, builtin exception hierarchy, asyncio.",
+        "DESIGN.md section 2, C13",
+    ),
+    "C16": (
+        "bound extraction from the follower's idiom (recursion with growing chain / for-range) + guard dominance + edge reachability (errors raise) + scheme-filter dominance",
+        "Static necessary conditions G1-G5: the number of fetches the redirect follower allows, extracted from its length guard and per-hop append, equals max_redirects + 1 and the guard dominates the fetch; the next hop is unreachable without the success edge of startswith('gemini://') on the followed value; loop and limit tests reach only raise; the loop test precedes the fetch and the fetched URL is what is recorded; get() without redirect following returns one unmodified _get_single result; hops go through the verifying fetch. Arbitrary server graphs beyond the bound are not decided.",
+        "Trusted: CPython ast, engine. A follower in an unrecognised idiom is reported as 'bound not extractable'.",
+        "DESIGN.md section 2, C16",
+    ),
     "C06": (
         "type-resolved unused-result rule (partial-write APIs) + must-pass-through (flush after encrypt, drain before close) + provenance of written bytes + sibling agreement",
         "Static necessary conditions R1-R5; sizes and record/buffer boundaries are run-time quantities and are NOT decided. No call that resolves (through attribute annotations) to a partial-write API such as OpenSSL.SSL.Connection.send has its result discarded; in the transport wrapper every encrypt call is followed by a flush, close() shuts down and flushes before the TCP close, and the flush loop only leaves with an empty BIO; the body written is response.body (UTF-8 for text) unsliced and the re-wrapping constructions pass status/meta/body through; both listeners build the same protocol; the raw transport only carries bio_read output.",
